@@ -49,6 +49,16 @@ Fixpoint apply_code {A} (code : list nat) (l : list A) : list A :=
                   end
   end.
 
+(* python list indexing `l[k]` for a python int k: 0 <= k < len from the front,
+   -len <= k < 0 from the back, anything else raises IndexError (None) *)
+Definition py_index (len : nat) (k : Z) : option nat :=
+  if 0 <=? k then (if k <? Z.of_nat len then Some (Z.to_nat k) else None)
+  else (if - Z.of_nat len <=? k then Some (Z.to_nat (Z.of_nat len + k)) else None).
+Definition py_get {A} (l : list A) (k : Z) : option A :=
+  match py_index (length l) k with Some i => nth_error l i | None => None end.
+Definition py_set {A} (l : list A) (k : Z) (x : A) : option (list A) :=
+  match py_index (length l) k with Some i => Some (set_nth i x l) | None => None end.
+
 (* ------------------------------------------------------------------ *)
 (* padded_batch_client_datasets                                         *)
 
@@ -187,32 +197,47 @@ Definition padded_batch_client_datasets (bs nb : Z) (ds : list (cds A)) : pres :
 (* ------------------------------------------------------------------ *)
 (* buffered_shuffle_batch_client_datasets                               *)
 
-(* gen_items after the first `yield preprocessor`: the (examples, i) items of the
-   datasets in order; the flag says that the generator then raises ValueError. *)
-Fixpoint gen_items (pp pf : option Z) (ds : list (cds A)) : list A * bool :=
-  match ds with
-  | [] => ([], false)
-  | d :: ds' =>
-    match check_pre pp (d_pre d) with
-    | None => ([], true)
-    | Some p =>
-      match check_feat pf (d_feat d) with
-      | None => ([], true)
-      | Some f => let (items, e) := gen_items (Some p) (Some f) ds' in (d_rows d ++ items, e)
-      end
+(* gen_items(): state = (preprocessor, features, the (examples, i) items yielded so far).
+   The very first yield (the preprocessor object itself, consumed by next(it)) is not
+   an item.  One iteration of `for dataset in datasets:` *)
+Inductive gi_res :=
+| GNext (pp pf : option Z) (items : list A)
+| GRaise (items : list A).          (* ValueError after having yielded `items` *)
+
+Definition gi_step (pp pf : option Z) (items : list A) (d : cds A) : gi_res :=
+  match check_pre pp (d_pre d) with
+  | None => GRaise items
+  | Some p =>
+    match check_feat pf (d_feat d) with
+    | None => GRaise items
+    | Some f =>
+      (* for i in range(len(dataset)): yield (dataset.raw_examples, i) *)
+      GNext (Some p) (Some f) (items ++ d_rows d)
     end
   end.
 
-(*  for item in shuffled: buf.append(item)
-      if len(buf) == batch_size: yield preprocessor(concat(...)); buf.clear()  *)
-Fixpoint batch_loop (bs : Z) (items : list A) (buf : list A) (out : list (list A)) : list (list A) * list A :=
-  match items with
-  | [] => (out, buf)
-  | it :: items' =>
-    let buf := buf ++ [it] in
-    if Z.of_nat (length buf) =? bs then batch_loop bs items' [] (out ++ [pre buf])
-    else batch_loop bs items' buf out
+Fixpoint gi_fold (pp pf : option Z) (items : list A) (ds : list (cds A)) : list A * bool :=
+  match ds with
+  | [] => (items, false)
+  | d :: ds' => match gi_step pp pf items d with
+                | GNext pp' pf' items' => gi_fold pp' pf' items' ds'
+                | GRaise items' => (items', true)
+                end
   end.
+
+(* the items of the datasets in order; the flag says that the generator then raises ValueError *)
+Definition gen_items (ds : list (cds A)) : list A * bool := gi_fold None None [] ds.
+
+(*  for item in shuffled: buf.append(item)
+      if len(buf) == batch_size: yield preprocessor(concat(...)); buf.clear()
+    state = (buf, batches yielded) *)
+Definition bl_step (bs : Z) (st : list A * list (list A)) (item : A) : list A * list (list A) :=
+  let '(buf, out) := st in
+  let buf := buf ++ [item] in
+  if Z.of_nat (length buf) =? bs then ([], out ++ [pre buf]) else (buf, out).
+
+Definition batch_loop (bs : Z) (items : list A) (buf : list A) (out : list (list A)) : list (list A) * list A :=
+  let '(buf', out') := fold_left (bl_step bs) items (buf, out) in (out', buf').
 End Padded.
 
 Arguments SNext {A}.
@@ -221,6 +246,8 @@ Arguments SFuel {A}.
 Arguments PDone {A}.
 Arguments PValueError {A}.
 Arguments PStuck {A}.
+Arguments GNext {A}.
+Arguments GRaise {A}.
 Arguments p_pre {A}.
 Arguments p_feat {A}.
 Arguments p_buf {A}.
@@ -244,20 +271,37 @@ Arguments SIndexError {A}.
       r, buf[0] = buf[0], i
       swap = rng.randint(buffer_size)
       if swap < buffer_size - 1: buf[swap], buf[0] = buf[0], buf[swap]
-      yield r  *)
-Fixpoint bshuf_loop {A} (B : Z) (rest : list A) (draws : list Z) (buf out : list A)
-  : option (list A * list A) :=
+      yield r
+    One iteration on the state (buf, remaining randint draws, items yielded); None = IndexError.
+    Tuple assignments: right-hand sides left to right, then the stores left to right. *)
+Definition bstep {A} (B : Z) (st : list A * list Z * list A) (i : A) : option (list A * list Z * list A) :=
+  let '(buf, draws, out) := st in
+  match py_get buf 0 with None => None | Some rhs0 =>
+  let rhs1 := i in
+  let r := rhs0 in
+  match py_set buf 0 rhs1 with None => None | Some buf =>
+  let swap := hd 0 draws in
+  let draws := tl draws in
+  if swap <? B - 1 then
+    match py_get buf 0 with None => None | Some rhs0 =>
+    match py_get buf swap with None => None | Some rhs1 =>
+    match py_set buf swap rhs0 with None => None | Some buf =>
+    match py_set buf 0 rhs1 with None => None | Some buf =>
+    Some (buf, draws, out ++ [r])
+    end end end end
+  else Some (buf, draws, out ++ [r])
+  end end.
+
+Fixpoint bshuf_fold {A} (B : Z) (rest : list A) (st : list A * list Z * list A) : option (list A * list Z * list A) :=
   match rest with
-  | [] => Some (out, buf)
-  | i :: rest' =>
-    match buf with
-    | [] => None
-    | r :: _ =>
-      let buf := set_nth 0 i buf in
-      let swap := hd 0 draws in
-      let buf := if swap <? B - 1 then swap_slots (Z.to_nat swap) buf else buf in
-      bshuf_loop B rest' (tl draws) buf (out ++ [r])
-    end
+  | [] => Some st
+  | i :: rest' => match bstep B st i with None => None | Some st' => bshuf_fold B rest' st' end
+  end.
+
+Definition bshuf_loop {A} (B : Z) (rest : list A) (draws : list Z) (buf out : list A) : option (list A * list A) :=
+  match bshuf_fold B rest (buf, draws, out) with
+  | Some (buf', _, out') => Some (out', buf')
+  | None => None
   end.
 
 (* source = `src` followed by an exception iff src_err.
@@ -283,7 +327,7 @@ Definition buffered_shuffle_batch_client_datasets (bs B : Z) (code : list nat) (
   match ds with
   | [] => Some ([], false)                          (* next(it) raises StopIteration: return *)
   | _ :: _ =>
-    let (items, e) := gen_items None None ds in
+    let (items, e) := gen_items ds in
     match buffered_shuffle B code draws items e with
     | SIndexError => None
     | SErr shuffled => Some (fst (batch_loop pre bs shuffled [] []), true)
@@ -293,6 +337,38 @@ Definition buffered_shuffle_batch_client_datasets (bs B : Z) (code : list nat) (
     end
   end.
 End ShuffleBatch.
+
+(* ------------------------------------------------------------------ *)
+(* FederatedData.shuffled_clients (all three implementations):
+     rng = np.random.RandomState(seed)
+     while True:
+       for x in client_datasets.buffered_shuffle(self.clients(), buffer_size, rng): yield x
+   One (Lehmer code, randint draws) oracle per pass; the prefix of the stream made of
+   the passes for which oracles are given. *)
+Fixpoint shuffled_clients_passes {A} (B : Z) (oracles : list (list nat * list Z)) (clients : list A)
+  : option (list (list A)) :=
+  match oracles with
+  | [] => Some []
+  | (code, draws) :: os =>
+    match buffered_shuffle B code draws clients false, shuffled_clients_passes B os clients with
+    | SOk pass, Some rest => Some (pass :: rest)
+    | _, _ => None
+    end
+  end.
+
+(* ------------------------------------------------------------------ *)
+(* shuffle_repeat_batch_federated_data: an infinite stream
+     rng = RandomState(seed); datasets = (.. fd.shuffled_clients(cB, rng.randint(1 << 32)))
+     yield from buffered_shuffle_batch_client_datasets(datasets, batch_size, example_buffer_size, rng)
+   What has been emitted once `prefix` (the first B + k items of the item stream) has been
+   consumed: k items, cut into batches; the model of the first `take` batches. *)
+Definition shuffle_repeat_prefix {A} (pre : list A -> list A) (bs B : Z) (code : list nat) (draws : list Z)
+    (prefix : list A) (take : nat) : option (list (list A)) :=
+  let n := Z.to_nat B in
+  match bshuf_loop B (skipn n prefix) draws (apply_code code (firstn n prefix)) [] with
+  | Some (out, _) => Some (firstn take (fst (batch_loop pre bs out [] [])))
+  | None => None
+  end.
 
 (* ------------------------------------------------------------------ *)
 (* RepeatableIterator                                                   *)
@@ -339,13 +415,17 @@ Inductive C15_case :=
 | CPadded (bs nb a b : Z) (ds : list (Z * Z * nat))
 | CShuffle (B : Z) (code : list nat) (draws : list Z) (n : nat)
 | CShufBatch (bs B a b : Z) (code : list nat) (draws : list Z) (ds : list (Z * Z * nat))
-| CRepeat (container : bool) (n : nat) (calls : nat).
+| CRepeat (container : bool) (n : nat) (calls : nat)
+| CShufClients (B : Z) (oracles : list (list nat * list Z)) (n : nat)
+| CSrb (bs B : Z) (code : list nat) (draws : list Z) (prefix : list Z) (take : nat).
 
 Inductive C15_obs :=
 | OPadded (err : bool) (batches : list (list Z * list bool))
 | OShuffle (out : list Z)
 | OShufBatch (err : bool) (batches : list (list Z))
-| ORepeat (trace : list (option Z)).
+| ORepeat (trace : list (option Z))
+| OShufClients (stream : list Z)
+| OSrb (batches : list (list Z)).
 
 Definition optz_eqb (x y : option Z) : bool :=
   match x, y with Some a, Some b => a =? b | None, None => true | _, _ => false end.
@@ -370,5 +450,15 @@ Definition C15_agree (c : C15_case) (o : C15_obs) : bool :=
     end
   | CRepeat container n calls, ORepeat trace =>
     list_beq optz_eqb (rit_trace calls (rit_init container (idx n))) trace
+  | CShufClients B oracles n, OShufClients stream =>
+    match shuffled_clients_passes B oracles (idx n) with
+    | Some passes => lz_eqb (concat passes) stream
+    | None => false
+    end
+  | CSrb bs B code draws prefix take, OSrb batches =>
+    match shuffle_repeat_prefix (fun x => x) bs B code draws prefix take with
+    | Some out => llz_eqb out batches
+    | None => false
+    end
   | _, _ => false
   end.
